@@ -23,7 +23,11 @@ from ariadne_codegen.codegen import (
 )
 from ariadne_codegen.config import get_client_settings
 from ariadne_codegen.plugins.base import Plugin
-from ariadne_codegen.utils import format_multiline_strings, str_to_snake_case
+from ariadne_codegen.utils import (
+    ISORT_CONFIG,
+    format_multiline_strings,
+    str_to_snake_case,
+)
 
 
 class ExtractOperationsPlugin(Plugin):
@@ -153,7 +157,7 @@ class ExtractOperationsPlugin(Plugin):
             code_with_break_lines, offset=0
         )
         formatted_code = format_str(
-            isort.code(code_with_formatted_strings), mode=Mode()
+            isort.code(code_with_formatted_strings, config=ISORT_CONFIG), mode=Mode()
         )
         comment = get_comment(
             strategy=self.settings.include_comments, source=self.settings.queries_path
